@@ -8,7 +8,9 @@ O == Overhead
 MCKeys    == 1..3
 MCKHeaps  == {0, 2}
 MCVSizes  == {0, 1, 3}
-MCLimits  == {0, O, O + 1, 2 * O, 2 * O + 1, 2 * O + 3, 3 * O + 4, UMAX}
+MCLimits  == {0, O, O + 1, 2 * O, 2 * O + 1, 2 * O + 3, 3 * O + 4, UMAX - 2, UMAX}
+            \* UMAX - 2: a limit closer to usize::MAX than the size changes in play (sums such as
+            \* max_size + old - new wrap around)
 MCInitCaps == {0, 3}
 MCAddl    == {0, 1, 4, UMAX, -1000000}   \* the last passes len + n, fails inside the table
 MCOps == {"insert", "try_insert", "get", "get_entry", "get_lru", "touch", "peek",
